@@ -18,49 +18,58 @@ OFF_FULL = [0, 1, -1, 8, -8, 127, 128, -128, -129, 255, 32767, -32768]
 JOFF = [0, 3]      # forward jump distances used in the per-instruction family (other shapes: control-flow family)
 
 
+def combos(pairs, vals, full):
+    """full: every pair x every value; quick: every pair with one value (rotating) + every value with the first pairs"""
+    if full: return [(p, v) for p in pairs for v in vals]
+    out = [(p, vals[i % len(vals)]) for i, p in enumerate(pairs)]
+    out += [(pairs[i % 2], v) for i, v in enumerate(vals)]
+    return out
+
+
 def instances(tier):
     """(opc, dst, src, off, imm, next_imm) for family F1, derived from the opcode classification"""
-    pairs = QUICK_PAIRS if tier == 'quick' else ALL_PAIRS
-    imms = IMM_QUICK if tier == 'quick' else IMM_FULL
-    offs = OFF_QUICK if tier == 'quick' else OFF_FULL
+    full = tier != 'quick'
+    pairs = ALL_PAIRS if full else QUICK_PAIRS
+    imms = IMM_FULL if full else IMM_QUICK
+    offs = OFF_FULL if full else OFF_QUICK
     out = []
     for opc in spec.VERIFIER_OK:
         k, i = spec.classify(opc)
         if k in ('exit',): continue
+        store_cls = (opc & 7) in (spec.CLS_ST, spec.CLS_STX)
+        def fix(p):
+            d, s = p
+            return (10 if (store_cls and d == 1) else d), s        # r10 as store base
         if k == 'call':
             for key in (0, 1, 0x7fffffff, 0x80000000, 0xffffffff): out.append((opc, 0, 0, 0, key, 0))
-            continue
-        for (d, s) in pairs:
-            store_cls = (opc & 7) in (spec.CLS_ST, spec.CLS_STX)
-            dd = 10 if (store_cls and d == 1) else d           # r10 as store base
-            if k == 'alu':
-                if i['x']: out.append((opc, dd, s, 0, 0, 0))
+        elif k == 'alu':
+            if i['x'] or i['op'] == 'neg':
+                for p in pairs: d, s = fix(p); out.append((opc, d, s if i['x'] else 0, 0, 0, 0))
+            else:
+                for p, im in combos(pairs, imms, full): d, s = fix(p); out.append((opc, d, 0, 0, im, 0))
+        elif k == 'endian':
+            for p, wd in combos(pairs, [16, 32, 64], True): d, s = fix(p); out.append((opc, d, 0, 0, wd, 0))
+        elif k == 'lddw':
+            vals = [0, 1, 0x7fffffff, 0x80000000, 0xffffffff, 0x123456789abcdef0, 0xffffffffffffffff, 0xffffffff80000000]
+            for p, v in combos(pairs, vals, full): d, s = fix(p); out.append((opc, d, 0, 0, v & 0xffffffff, v >> 32))
+        elif k == 'ja':
+            for o in JOFF: out.append((opc, 0, 0, o, 0, 0))
+        elif k == 'jcond':
+            for o in JOFF:
+                if i['x']:
+                    for p in pairs: d, s = fix(p); out.append((opc, d, s, o, 0, 0))
                 else:
-                    for im in (imms if i['op'] != 'neg' else [0]): out.append((opc, dd, 0, 0, im, 0))
-            elif k == 'endian':
-                for wd in (16, 32, 64): out.append((opc, dd, 0, 0, wd, 0))
-            elif k == 'lddw':
-                for v in (0, 1, 0x7fffffff, 0x80000000, 0xffffffff, 0x123456789abcdef0, 0xffffffffffffffff, 0xffffffff80000000):
-                    out.append((opc, dd, 0, 0, v & 0xffffffff, v >> 32))
-            elif k == 'ja':
-                for o in JOFF: out.append((opc, 0, 0, o, 0, 0))
-                break
-            elif k == 'jcond':
-                for o in JOFF:
-                    if i['x']: out.append((opc, dd, s, o, 0, 0))
-                    else:
-                        for im in imms[:4] + imms[-2:]: out.append((opc, dd, 0, o, im, 0))
-            elif k == 'ldabs':
-                for im in (0, 1, 127, 128, 0x7fffffff): out.append((opc, 0, 0, 0, im, 0))
-                break
-            elif k == 'ldind':
-                for im in (0, 1, 127, 128, 0x7fffffff): out.append((opc, 0, s, 0, im, 0))
-            elif k in ('ldx', 'stx', 'xadd'):
-                for o in offs: out.append((opc, dd, s, o, 0, 0))
-            elif k == 'st':
-                for o in offs[:3] + offs[-1:]:
-                    for im in imms[:3] + imms[-2:]: out.append((opc, dd, 0, o, im, 0))
-    # de-duplicate, keep order
+                    for p, im in combos(pairs, imms, full): d, s = fix(p); out.append((opc, d, 0, o, im, 0))
+        elif k == 'ldabs':
+            for im in (0, 1, 127, 128, 0x7fffffff): out.append((opc, 0, 0, 0, im, 0))
+        elif k == 'ldind':
+            for p, im in combos(pairs, [0, 1, 127, 128, 0x7fffffff], full): d, s = fix(p); out.append((opc, 0, s, 0, im, 0))
+        elif k in ('ldx', 'stx', 'xadd'):
+            for p, o in combos(pairs, offs, full): d, s = fix(p); out.append((opc, d, s, o, 0, 0))
+        elif k == 'st':
+            for p, o in combos(pairs, offs, full):
+                d, s = fix(p)
+                for im in (imms[:3] + imms[-2:] if full else [imms[(o + d) % len(imms)]]): out.append((opc, d, 0, o, im, 0))
     seen = set(); res = []
     for x in out:
         if x not in seen: seen.add(x); res.append(x)
@@ -114,7 +123,7 @@ def check_instance(ctx, inst, props=('C03',), helper_kind='h1'):
     X = x86sym.X86(code, ctx.timeout_ms)
     S = ctx.I.S
     X.hcall = S.hcall
-    st = x86sym.fresh_state(mem=S.M0)
+    st = x86sym.fresh_state(mem=S.M0); X.rsp0 = st.r['rsp']
     st.ip = seg_start
     regs = [st.r[m] for m in EBPF_MAP]
     stop = set(l for j, l in enumerate(locs[:nslots]) if j != at and not (k == 'lddw' and j == at + 1))
@@ -157,7 +166,7 @@ def check_instance(ctx, inst, props=('C03',), helper_kind='h1'):
         # premise of C03: all accesses in bounds of packet / metadata / stack, and those regions are away from the native scratch
         data = [e for e in Q.log if e[0] in icheck.DATA_KINDS]
         prem = []
-        for (_, addr, n) in data: prem.append(Or(ULE(addr + n, rsp0 - 128), UGE(addr, rsp0 + 64)))
+        for (_, addr, n) in data: prem.append(Or(ULE(addr + n, rsp0 - 8192), UGE(addr, rsp0 + 4096)))
         covered = []
         for xs_ in xs:
             xc = xs_.pc
@@ -168,7 +177,7 @@ def check_instance(ctx, inst, props=('C03',), helper_kind='h1'):
             covered.append(And(*xc) if xc else BoolVal(True))
             for (oname, cnd, ipx) in xs_.obligations:
                 rr, m = pr.prove(f'{name}:{oname} [{tag}]', both, cnd)
-                if rr == 'sat': cand('divide-error', f'x86 {oname} violated at code offset {ipx:#x}', m)
+                if rr == 'sat': cand(oname, f'x86 {oname} violated at code offset {ipx:#x}', m)
             # where does the code go?
             pr.out['obligations'] += 1
             if isinstance(xs_.ip, tuple) or xs_.ip != want_ip:
@@ -241,6 +250,9 @@ def replay_jit(c, engine_pair=('interp', 'jit')):
     aspect = c['role'].split('/')[2]
     obs = md.get('reg') if aspect == 'reg-value' else None
     inst = c['inst']; k = spec.classify(inst[0])[0]
+    if k not in ('ldabs', 'ldind', 'ldx', 'st', 'stx', 'xadd'):
+        # no memory involved: register values are plain constants, never region-relative
+        md.update(mem_base=1 << 62, mbuff_base=(1 << 62) + (1 << 40), stack_base=(1 << 62) + (2 << 40), ranges=[], mem_len=16, mbuff_len=16, mem_bytes=[0] * 16, mbuff_bytes=[0] * 16)
     land = None
     b, why = replaylib.build_interp_program(md, observe_reg=obs, land=land)
     if b is None: return None, why
